@@ -181,6 +181,20 @@ def run(ctx):
             i, o = sigs[0]
             specs.append(dict(D=D, cls=cls, equivariant=True, input=i, output=o, depth=2, use_group_norm=True, use_bias="auto", activation="relu", mid_keys=[((0, 0), 2), ((1, 0), 3), ((1, 1), 1)], num_downsamples=1, num_conv=1, is_torus=[True] + [False] * (D - 1)))
             specs.append(dict(D=D, cls=cls, equivariant=False, input=i, output=o, depth=2, use_group_norm=False, use_bias="auto", activation="relu", kernel_size=3, mid_keys=[((0, 0), 5)], num_downsamples=1, num_conv=2))
+    # single-type signatures of every type (the degenerate signatures where "nothing to fold back" short cuts live):
+    # one scalar, one pseudoscalar, one vector, one pseudovector block, asked of every model in both modes
+    for D in (2, 3):
+        for eq in (True, False):
+            for cls in ("ResNet", "DilResNet", "UNet"):
+                for t in ((0, 0), (0, 1), (1, 0), (1, 1)):
+                    if D == 3 and (t != (0, 1) and not th):
+                        continue
+                    i1, o1 = [((0, 0), 1), (t, 1)] if t != (0, 0) else [((0, 0), 2)], [(t, 2)]
+                    extra = dict(num_blocks=1, num_conv=1) if cls == "ResNet" else dict(num_blocks=1) if cls == "DilResNet" else dict(num_downsamples=1, num_conv=1)
+                    sp_ = dict(D=D, cls=cls, equivariant=eq, input=i1, output=o1, depth=2, use_group_norm=False, use_bias="auto", activation="relu", **extra)
+                    if not eq:
+                        sp_["kernel_size"] = 3
+                    specs.append(sp_)
     specs.append(dict(D=2, cls="ResNet", equivariant=False, input=sigs[0][0], output=sigs[0][1], depth=2, use_group_norm=True, use_bias="auto", activation="callable", kernel_size=3, num_blocks=1, num_conv=1))
     specs.append(dict(D=2, cls="ResNet", equivariant=True, input=sigs[0][0], output=sigs[0][1], depth=2, use_group_norm=True, use_bias="auto", activation="callable", num_blocks=1, num_conv=1))
     specs.append(dict(D=2, cls="ConvBlock", equivariant=False, input=[((0, 0), 3)], output=[((0, 0), 2)], depth=2, use_bias="auto", activation="relu", kernel_size=3, use_batch_norm=True, preactivation_order=False))
